@@ -196,6 +196,14 @@ func releaseFailedStart(ds DataSource) {
 // This will be a long-running goroutine, as long as a source is active.
 func CoreLoop(ds DataSource, queuedRequests chan func()) {
 	defer ds.RunDoneDeactivate()
+	// Whatever ends the run (Stop, an error block, a source timeout), do not leave data files open:
+	// a source that ended by itself used to stay in the "writing" state, because only a Stop() that
+	// found it still Active would stop the writing.
+	defer func() {
+		if ds.WritingIsActive() {
+			ds.WriteControl(&WriteControlConfig{Request: "STOP"})
+		}
+	}()
 	nextBlock := ds.getNextBlock()
 
 	for {
